@@ -8,6 +8,7 @@ import LogosModel.Priority
 import LogosModel.Attr
 import LogosModel.Bump
 import LogosModel.Strip
+import LogosModel.Derive
 import LogosModel.Source
 import Std.Data.HashSet
 /-!
@@ -294,6 +295,7 @@ def answer (c : Case) (q : List String) : String :=
   | ["EQUIV", i, j] => equivVerdict c i.toNat! j.toNat!
   | ["MATCH", i, hex] => matchVerdict c i.toNat! (unhex hex)
   | ["CLSOK"] => " ".intercalate (c.hirs.toList.map fun h => if h.clsOK then "1" else "0")
+  | ["GREEDY"] => " ".intercalate (c.hirs.toList.map fun h => if h.greedyFixed then "1" else "0")
   | ["PRIO"] => " ".intercalate (c.hirs.toList.map fun h => toString h.complexity)
   | ["NULLABLE"] => " ".intercalate (c.hirs.toList.map fun h => if h.hasLook then "L" else if nullable h.lower then "1" else "0")
   | _ => "BADQ"
